@@ -214,7 +214,7 @@ def make_programs(tier, seed, errors=0.03, consts=0.0, n_random=None, pattern_va
     rng = random.Random(seed * 1000003 + 3)
     # (i) enumerated capture patterns
     maxd = 3 if tier == "quick" else 4
-    variants = pattern_variants if pattern_variants is not None else (2 if tier == "quick" else 4)
+    variants = pattern_variants if pattern_variants is not None else (3 if tier == "quick" else 4)
     n = 0
     for combo in G.pattern_combos(maxd):
         for v in range(variants):
@@ -226,7 +226,7 @@ def make_programs(tier, seed, errors=0.03, consts=0.0, n_random=None, pattern_va
     for i, (sig, main) in enumerate(G.protocol_programs(tier != "quick")):
         progs.append(Prog("b%d" % i, ("protocol",) + tuple(sig), [], main, "protocol"))
     # (ii) typed random programs
-    nr = n_random if n_random is not None else (6000 if tier == "quick" else 200000)
+    nr = n_random if n_random is not None else (8000 if tier == "quick" else 200000)
     for i in range(nr):
         g = G.Gen(rng, "r%d" % i, max_nodes=rng.choice([15, 30, 60]), errors=errors, consts=consts)
         tops, main = g.program(rng.randrange(2, 7))
